@@ -107,6 +107,21 @@ func (x *Exec) eval(e ast.Expr, st *St, fr *Frame, k kval) {
 							name: x.Fn.Key + "/closure#" + fmt.Sprint(ord) + "/pre#" + r.Label}, nil, env.Formula(r.Expr))
 					}
 				})
+				if len(cc.Defines) > 0 || cc.Implements != "" {
+					// the closure value is an object of its own: its defining attributes hold of it
+					v.T = x.fresh("closure", SRef)
+					x.assume(st, Neq(v.T, Null))
+					if cc.Implements != "" {
+						v.Proto = x.W.protoOf(cc.Implements)
+					}
+					dn := x.localNames(st, fr, map[string]*Val{"self": v})
+					denv := &CEnv{X: x, Names: dn, St: st, Pkg: fr.fi.Pkg}
+					x.wrapCfail("defines of closure "+cc.Key, func() {
+						for _, d := range cc.Defines {
+							x.assume(st, denv.HypFormula(d.Expr))
+						}
+					})
+				}
 				if cc.Yields != "" {
 					x.wrapCfail("subjects of closure "+cc.Key, func() {
 						for _, e := range cc.YieldsArgs {
